@@ -8,7 +8,8 @@ from ..harness import Sub, Violation, Inconclusive, crash_is_violation
 from ..oracles import bspl, advect
 
 PROPERTY = "C10"
-HANG_SECONDS = 40.0
+HANG_SECONDS = 60.0
+LINE_BUDGET = 1000000000
 RULE = ("Hypothesis-generated cases: ntheta 4-12 (periodic theta splines of degree 1-5 on the general path or the "
         "uniform-cubic path), nz 6-14, several radii and velocities of either sign (so step(f, vIdx, rIdx) indexing "
         "is exercised), dt of either sign with displacements from a fraction of a cell to many turns of the z domain, "
